@@ -26,12 +26,26 @@ def run(ctx):
         if x["invariant"] == "TerminatesCleanly":
             continue   # reported above with its stack
         core.report(ctx, {"check": "Mon_Robust", "invariant": x["invariant"], "first": c["first"], "agent": c["agent"], "magic": c["magic"], "hdr": c["hdr"]}, {"events": evs})
+    # ---- histories: agent resource tables under well-formed callbacks with boundary values (Tables.tla)
+    core.design_check(ctx, "Tables.tla", "Tables.cfg", timeout=900)
+    hbehs = core.generate(ctx, "Gen_Tables.tla", "Gen_Tables_one.cfg" if quick else "Gen_Tables_two.cfg", 0, 0, ctx.seed, bfs=True, timeout=900)
+    ctx.say("  histories: %d (shortest callback history to every reachable (download table, port-forward table, last callback))" % len(hbehs))
+    ttrace, tsumm = core.run_harness(ctx, hb, "tables", hbehs, "tables", timeout=1500)
+    for inc in tsumm["incidents"]:
+        m = re.search(r"op=(\w+) history=\[(.*?)\]", inc["site"])
+        core.report(ctx, {"check": "replay-history", "kind": inc["kind"], "where": _where(inc["detail"]) if inc["kind"] == "panic" else inc["detail"], "op": m.group(1) if m else "", "after": m.group(2) if m else ""}, inc)
+    tv = core.validate_traces(ctx, "Trace_Tables.tla", "Trace_Tables_strict.cfg", "Trace_Tables_mon.cfg", ttrace, "tables", timeout=1500)
+    for x in tv["violations"]:
+        if x["invariant"] == "MonClean":
+            continue   # reported above with its stack
+        evs = [json.loads(l) for l in x["lines"]]
+        core.report(ctx, {"check": "Mon_Tables", "invariant": x["invariant"], "ops": [e["o"]["op"] for e in evs if e.get("ev") == "Step"][:x["event"]]}, {"events": evs, "failing_event": x["event"]})
     core.write_evidence(ctx, "model_checking",
-        rule="cells = state class (fresh / outstanding tasks / open download / two-hop pivot, each with and without a Service block) x packet class (header length 0..19, 20, full; Demon / foreign magic; known / unknown / zero / pivot-child agent id; first command init / get-job / callback / both; 34 command ids incl. unknown x 31 sub ids x 16 body shapes incl. truncations, odd UTF-16 lengths, 2^32-1 length prefixes, nested valid and invalid registrations, random bytes; right / wrong key; relayed 0..2 hops); every (command, sub, shape) cell goes past the request-id gate of a tasked agent, the rest is sampled; each request runs under a watchdog with panic capture, mutex probes and a full state diff; non-trivial = cells",
-        samples=summ["samples"], evaluations=summ["behaviours"], distinct_nontrivial=len(cells), exhaustive=False,
-        extra={"counters": summ["counters"]},
+        rule="cells = state class (fresh / outstanding tasks / open download / two-hop pivot, each with and without a Service block) x packet class (header length 0..19, 20, full; Demon / foreign magic; known / unknown / zero / pivot-child agent id; first command init / get-job / callback / both; 34 command ids incl. unknown x 31 sub ids x 16 body shapes incl. truncations, odd UTF-16 lengths, 2^32-1 length prefixes, nested valid and invalid registrations, random bytes; right / wrong key; relayed 0..2 hops); every (command, sub, shape) cell goes past the request-id gate of a tasked agent, the rest is sampled; each request runs under a watchdog with panic capture, mutex probes and a full state diff; non-trivial = cells; plus histories = for every reachable state of the agent's download and port-forward tables (ids known/unknown, empty file, forward target up/down, dialled or not) every well-formed callback, replayed as the shortest history reaching it on a fresh agent with the same probes after every step",
+        samples=summ["samples"], evaluations=summ["behaviours"] + tsumm["behaviours"], distinct_nontrivial=len(cells) + len(hbehs), exhaustive=False,
+        extra={"counters": summ["counters"], "history_counters": tsumm["counters"], "histories": len(hbehs)},
         assumptions=["the packet class partition stands for 'all request bodies' (plus random bytes inside the 'random' shape); HTTP(S) listeners share parseAgentRequest with the External endpoint used here", "third-party (service) agent traffic with a registered magic value is not generated"])
 
 def _where(detail):
-    m = re.findall(r"Havoc/[\w/]+\.\(?\*?\w*\)?\.?(\w+)\(", detail or "")
+    m = re.findall(r"Havoc/[\w/]+\.(?:\(\*?\w+\)\.)?(\w+)\(", detail or "")
     return m[0] if m else ""
